@@ -740,6 +740,11 @@ func workC18(req *Request, set []byte) {
 					}
 				}
 			}
+			// the collision error of RefSchema.claim is the innermost cause: drop the "properties of X: field:"
+			// wrappers in front of it so that the truncation below cannot cut it off
+			if i := strings.Index(msg, "schema name "); i > 0 && strings.Contains(msg[i:], "is used by both") {
+				msg = msg[i:]
+			}
 			o.Names = append(o.Names, string(md.FullName()))
 			o.Sub = append(o.Sub, class)
 			o.Same = append(o.Same, same)
